@@ -645,9 +645,12 @@ def generate(repo):
         kof = {}
         for n in fn.body:
             if isinstance(n, ast.Assign) and isinstance(n.value, ast.Call) and ast.unparse(n.value.func) == 'ndimage.convolve':
+                if len(n.value.args) != 2:
+                    raise Untranslatable('convolve with positional options')
                 a0, a1 = n.value.args
-                if ast.unparse(a0) != 'img' or n.value.keywords:
-                    raise Untranslatable('convolve of something else / with keywords')
+                # the boundary rule (mode / cval) is the business of the item demosaic_malvar.boundary
+                if ast.unparse(a0) != 'img' or any(kw.arg not in ('mode', 'cval') for kw in n.value.keywords):
+                    raise Untranslatable('convolve of something else / with other keywords')
                 name = n.targets[0].id
                 # which filtered image this is follows from the kernel it is made with, not from the name of the local
                 role = {'kernelGAtRB': 'gest', 'kernelRAtGInRB': 'c1', 'kernelRAtGInBR': 'c2', 'kernelRAtBInBB': 'c3'}[kvar[a1.id]]
